@@ -25,13 +25,21 @@ const isFloat32 = 4
 const isFloat64 = 8
 
 func readNBytes(src *bufio.Reader, n int) []byte {
-	ret := make([]byte, n)
+	if n < 0 {
+		panic(fmt.Errorf("Tried to Read %d Bytes.. Invalid length", n))
+	}
+	// Do not trust the announced length for the allocation: grow as bytes arrive.
+	c := n
+	if c > 4096 {
+		c = 4096
+	}
+	ret := make([]byte, 0, c)
 	for i := 0; i < n; i++ {
 		ch, e := src.ReadByte()
 		if e != nil {
 			panic(fmt.Errorf("Tried to Read %d Bytes.. But hit end of file", n))
 		}
-		ret[i] = ch
+		ret = append(ret, ch)
 	}
 	return ret
 }
@@ -222,7 +230,8 @@ func decodeStringToDataUrl(src *bufio.Reader, mimeType string) []byte {
 		panic(fmt.Errorf("Major type is: %d in decodeString", major))
 	}
 	length := decodeIntAdditionalType(src, minor)
-	l := int(length)
+	pbs := readNBytes(src, int(length))
+	l := len(pbs)
 	enc := base64.StdEncoding
 	lEnc := enc.EncodedLen(l)
 	result := make([]byte, len("\"data:;base64,\"")+len(mimeType)+lEnc)
@@ -233,7 +242,6 @@ func decodeStringToDataUrl(src *bufio.Reader, mimeType string) []byte {
 	dest = dest[u:]
 	u = copy(dest, ";base64,")
 	dest = dest[u:]
-	pbs := readNBytes(src, l)
 	enc.Encode(dest, pbs)
 	dest = dest[lEnc:]
 	dest[0] = '"'
